@@ -167,7 +167,7 @@ func viewTable(n *realNode, known map[enode.ID]*tabNode) tabView {
 }
 
 func runFindNodes(o *Out, r *rand.Rand, thorough bool, _ []string) {
-	rounds, perRound := 4, 250
+	rounds, perRound := 4, shorter(250, thorough)
 	if thorough {
 		rounds, perRound = 40, 400
 	}
@@ -258,7 +258,7 @@ func runFindNodes(o *Out, r *rand.Rand, thorough bool, _ []string) {
 // runNodesResp: the asking side. NODES replies carrying valid, unsigned, wrong-distance, duplicate, low-port,
 // unrelayable and undecodable records go through the real processNodes.
 func runNodesResp(o *Out, r *rand.Rand, thorough bool, _ []string) {
-	rounds, perRound := 3, 300
+	rounds, perRound := 3, shorter(300, thorough)
 	if thorough {
 		rounds, perRound = 30, 600
 	}
